@@ -10,7 +10,7 @@ at db accesses of a running operation.
 """
 from trie import HexaryTrie
 
-from ..core import HarnessError, Violation, deep, hx, unhx
+from ..core import HarnessError, Violation, deep, fresh, hx, unhx
 from ..hgen import HistoryGen, make_pool, make_values, probe_keys
 from ..hworld import HWorld
 from ..models.mpt import BLANK_ROOT, RefMPT
@@ -244,7 +244,10 @@ class World(HWorld):
         if h.bgen is not None:
             return "skip"
         root = self.order[cmd["root"] % len(self.order)]
-        h.trie = HexaryTrie(self.db, root)
+        if cmd.get("assign"):
+            h.trie.root_hash = fresh(root)
+        else:
+            h.trie = HexaryTrie(self.db, fresh(root))
         h.model = dict(self.registry[root])
         h.ver += 1
         self.st.probe("reopened-at-earlier-root")
@@ -269,11 +272,11 @@ class World(HWorld):
         st = self.st
         try:
             if via_snapshot:
-                with self.handles[0].trie.at_root(root) as t:
+                with self.handles[0].trie.at_root(fresh(root)) as t:
                     self._read(t, root, contents, sel)
                 st.probe("root-reread-via-at_root")
             else:
-                self._read(HexaryTrie(self.db, root), root, contents, sel)
+                self._read(HexaryTrie(self.db, fresh(root)), root, contents, sel)
                 st.probe("root-reread-via-fresh-handle")
         except Violation:
             raise
@@ -360,7 +363,7 @@ def generate(rng):
             if rng.random() < 0.75:
                 c["v"] = hx(rng.choice(values))
         else:
-            c = {"op": "timetravel", "h": rng.randrange(nh), "root": rng.randrange(1000)}
+            c = {"op": "timetravel", "h": rng.randrange(nh), "root": rng.randrange(1000), "assign": int(rng.random() < 0.5)}
         cmds.insert(pos, c)
     # interposition: an operation of another handle runs inside a db access of this one
     if nh >= 2:
